@@ -105,6 +105,17 @@ def expr(e, lang="yaql"):
         return None
     if "lit" in e:
         return undict(e["lit"])
+    if "rawbad" in e:
+        # a failing expression; in Jinja it sits in a string beside a raw block
+        if lang == "jinja":
+            return "{%% raw %%}Hello {{ user }}{%% endraw %%} from {{ %s }}" % jinja(e["rawbad"])
+        return "<%% %s %%>" % yaql(e["rawbad"])
+    if "twobad" in e:
+        # two distinct failing expressions in one string
+        a, b = e["twobad"]
+        if lang == "jinja":
+            return "{{ %s }} / {{ %s }}" % (jinja(a), jinja(b))
+        return "<%% %s %%> / <%% %s %%>" % (yaql(a), yaql(b))
     if lang == "jinja":
         return "{{ %s }}" % jinja(e)
     return "<%% %s %%>" % yaql(e)
